@@ -25,6 +25,10 @@ Definition corr_e2e (c : N * option Z * option Z * bool * int_ty) : bool :=
   | _ => int_ty_eqb (int_type_token lo hi ext) obs
   end.
 
+(* serial constraints on the assignment path (Constraint::integer_type_of) *)
+Definition corr_assign_serial (c : list int_constraint * int_ty) : bool :=
+  let '(cs, obs) := c in int_ty_eqb (int_type cs) obs.
+
 (* Spec oracle applied to the implementation's observed type:
    holds both ends (hence, by convexity, every permitted value) and is fixed-width only if
    the constraint is non-extensible with both bounds finite. [lits] are literals declared with it. *)
